@@ -82,6 +82,8 @@ impl VoiceSet {
         weights: &Weights,
         param: F,
     ) -> ModelParameter {
+        #[cfg(feature = "verif-hooks")]
+        crate::verif::point("voiceset.weighted");
         let mut params_iter = self.iter().map(param);
         let mut weights_iter = weights.iter();
         let first_voice = params_iter.next().unwrap();
@@ -89,6 +91,8 @@ impl VoiceSet {
 
         let mut result = first_voice.mul(*first_weight);
         for (param, weight) in params_iter.zip(weights_iter) {
+            #[cfg(feature = "verif-hooks")]
+            crate::verif::point("voiceset.weighted.add");
             result.mul_add_assign(*weight, param);
         }
         result
